@@ -94,6 +94,12 @@ def run(ctx):
         files = [{"p": f"k{j}", "n": cpf * 64 - (j % 2), "s": 777 * i + j} for j in range(nf)]
         cases.append({"name": f"parked-{nf}f-{cpf}c-{st}s-{tr}", "files": files, "chunk": 64, "streams": st, "conns": 1, "transport": tr, "noroot": True,
                       "resume": True, "timeout_ms": 12000, "count_hits": True, "delays": {"recv.file_begin.enter": 450}})
+    # chunk sizes that are not powers of two (every party must count the same number of chunks), sizes around their multiples
+    for i, (ch, sizes) in enumerate([(7, [8, 14, 15, 6]), (1000, [1032, 2000, 999, 3016]), (48, [49, 96, 100]), (3, [1, 4, 9])]):
+        for resume in (False, True):
+            files = [{"p": f"o{j}", "n": n, "s": 99 * i + j} for j, n in enumerate(sizes)]
+            cases.append({"name": f"oddchunk-{ch}-{'resume' if resume else 'fresh'}", "files": files, "chunk": ch, "streams": 2, "conns": 1, "transport": "netsim", "noroot": True,
+                          "resume": resume, "timeout_ms": 8000})
     # several connections with different latencies: the first connection (which carries the control stream) slower than the others by
     # less and by more than the sender's 300 ms resume grace, and the other way round
     for i, (nf, cpf, st, delays) in enumerate([(1, 3, 2, [120, 0]), (2, 2, 4, [450, 0]), (3, 1, 3, [450, 0, 30]), (1, 5, 4, [0, 200]), (2, 3, 6, [60, 0, 0, 250])]
